@@ -191,6 +191,15 @@ MergeRefs(S, refs, i, onpath, acc) ==
            ELSE LET own == Over(MergeRefs(S, S[j].refs, 1, onpath \cup {j}, <<>>), S[j].attrs)
                 IN  MergeRefs(S, refs, i + 1, onpath, Over(acc, own))
 
+\* TTML2 10.4.1.? : "a loop in a sequence of chained style references must be considered an error" - what a style on a
+\* loop contributes is not defined, so style tokens are only demanded of documents whose style graph has no loop
+RECURSIVE Reaches(_, _, _, _)
+Reaches(S, from, to, seen) ==
+  \E k \in 1..Len(S[from].refs) :
+     LET j == StyleIndex(S, S[from].refs[k])
+     IN  j # 0 /\ (j = to \/ (j \notin seen /\ Reaches(S, j, to, seen \cup {j})))
+StyleGraphAcyclic(S) == \A i \in 1..Len(S) : ~Reaches(S, i, i, {i})
+
 RECURSIVE FoldNested(_, _, _)
 FoldNested(nested, i, acc) == IF i > Len(nested) THEN acc ELSE FoldNested(nested, i + 1, Over(acc, nested[i]))
 
@@ -290,42 +299,58 @@ BuildDoc(s, a) ==
           attrs |-> <<>>, nested |-> <<>>, space |-> "", lang |-> "", tag |-> "", sprop |-> "color", sval |-> "red"]]
 
 Doc == BuildDoc(sh, asg)
-IV  == Intervals(Doc)
 VisibleNow(N, iv, tt) == {x \in 1..Len(N) : XmlVisible(N, iv, x, tt)}
+\* the cursor stops one half tick after the last finite boundary of the document
+Horizon(N, iv) ==
+  LET fin == {iv.b[x] : x \in 1..Len(N)} \cup {iv.e[x] : x \in 1..Len(N)}
+      f   == {v \in fin : v < INF}
+  IN  IF f = {} THEN 1 ELSE Min2(TMax, 1 + CHOOSE v \in f : \A w \in f : w <= v)
 
 Init == /\ sh \in 1..Len(Shapes)
         /\ asg \in [1..Len(VaryIdx(sh)) -> Choices]
         /\ cur = 0
         /\ gone = {}
 
-Sweep == /\ cur < TMax
-         /\ cur' = cur + 1
-         /\ gone' = gone \cup (VisibleNow(Doc, IV, cur) \ VisibleNow(Doc, IV, cur + 1))
-         /\ UNCHANGED <<sh, asg>>
+Sweep == LET N == Doc  iv == Intervals(N)
+         IN  /\ cur < Horizon(N, iv)
+             /\ cur' = cur + 1
+             /\ gone' = gone \cup (VisibleNow(N, iv, cur) \ VisibleNow(N, iv, cur + 1))
+             /\ UNCHANGED <<sh, asg>>
 
 Next == Sweep
 Spec == Init /\ [][Next]_vars
 NoNext == FALSE /\ UNCHANGED vars          \* enumeration of the family only (replay into the implementation)
 
 \* a child is never active outside its parent's interval
-ChildWithinParent ==
-  LET N == Doc  iv == IV
-  IN  \A x \in 1..Len(N) : (N[x].parent # 0 /\ Active(iv, x, cur)) => Active(iv, N[x].parent, cur)
+ChildWithinParent(N, iv) ==
+  \A x \in 1..Len(N) : (N[x].parent # 0 /\ Active(iv, x, cur)) => Active(iv, N[x].parent, cur)
 \* in a seq at most one child is active at a time, and every child begins no earlier than its predecessor ends
-SeqExclusive ==
-  LET N == Doc  iv == IV
-  IN  \A x \in 1..Len(N) : N[x].tc = "seq" =>
+SeqExclusive(N, iv) ==
+  \A x \in 1..Len(N) : N[x].tc = "seq" =>
         /\ Cardinality({i \in 1..Len(N[x].kids) : Active(iv, N[x].kids[i], cur)}) <= 1
         /\ \A i \in 1..(Len(N[x].kids) - 1) : iv.bl[N[x].kids[i + 1]] >= iv.el[N[x].kids[i]]
-\* text of a sequential container is never shown (zero implicit duration); nothing is shown forever inside a
-\* container that ends
-SeqTextNeverShown ==
-  LET N == Doc  iv == IV
-  IN  \A x \in 1..Len(N) : (N[x].kind = "text" /\ N[N[x].parent].tc = "seq") => ~XmlVisible(N, iv, x, cur)
+\* text of a sequential container is never shown (zero implicit duration)
+SeqTextNeverShown(N, iv) ==
+  \A x \in 1..Len(N) : (N[x].kind = "text" /\ N[N[x].parent].tc = "seq") => ~XmlVisible(N, iv, x, cur)
 \* what has disappeared never comes back: the presence of a leaf is one interval
-OneInterval == gone \cap VisibleNow(Doc, IV, cur) = {}
-\* an explicit dur or end bounds the element: it is never active dur (or end) after its begin (or syncbase)
-ExplicitBounds ==
-  LET N == Doc  iv == IV
-  IN  \A x \in 1..Len(N) : (N[x].d # NONE /\ Active(iv, x, cur)) => cur < iv.b[x] + N[x].d
+OneInterval(N, iv) == gone \cap VisibleNow(N, iv, cur) = {}
+\* an explicit dur bounds the element: it is never active dur after its begin; an active end never precedes the begin
+ExplicitBounds(N, iv) ==
+  \A x \in 1..Len(N) : /\ (N[x].d # NONE /\ Active(iv, x, cur)) => cur < iv.b[x] + N[x].d
+                        /\ iv.el[x] >= iv.bl[x]
+\* a par container without dur / end lasts exactly until its last child ends (endsync all)
+ParCoversChildren(N, iv) ==
+  \A x \in 1..Len(N) : (N[x].tc = "par" /\ N[x].kind \notin LeafKinds /\ N[x].d = NONE /\ N[x].e = NONE /\ N[x].kids # <<>>
+                          /\ N[x].parent # 0)
+                         => \A i \in 1..Len(N[x].kids) : iv.el[x] >= Plus(iv.bl[x], iv.el[N[x].kids[i]])
+
+\* one invariant so that the intervals of the document are computed once per state; WhichFails names the culprit
+DesignInv ==
+  LET N == Doc  iv == Intervals(N)
+  IN  /\ ChildWithinParent(N, iv) /\ SeqExclusive(N, iv) /\ SeqTextNeverShown(N, iv) /\ OneInterval(N, iv)
+      /\ ExplicitBounds(N, iv) /\ ParCoversChildren(N, iv)
+WhichFails ==
+  LET N == Doc  iv == Intervals(N)
+  IN  <<ChildWithinParent(N, iv), SeqExclusive(N, iv), SeqTextNeverShown(N, iv), OneInterval(N, iv), ExplicitBounds(N, iv),
+        ParCoversChildren(N, iv)>>
 =============================================================================
